@@ -42,3 +42,28 @@ def configs(tier):
         C["filter_c3"] = base("filter", Cap=3, Filters={0, 1, 2}, Tags={0, 1}, Trig=1, MaxLive=4)
         C["filter_t0"] = base("filter", Cap=2, Filters={0, 1, 2, 3}, Tags={0, 1}, Trig=0, Prios={0, 1}, MaxLive=4)
     return C
+
+
+def walk_configs(tier):
+    """Bounds of the graphs that are exported by TLC and walked edge by edge on the real classes."""
+    q = tier == "quick"
+    ml = 3 if q else 4
+    W = {}
+    W["prio_c2"] = base("prio", Cap=2, Prios={0, 1}, MaxLive=ml)
+    W["prio_c1"] = base("prio", Cap=1, Prios={0, 1}, MaxLive=ml)
+    W["plain_c2"] = base("plain", Cap=2, MaxLive=4 if q else 5)
+    W["filter_user"] = base("filter", Cap=2, Filters={1, 2}, Tags={0, 1}, Trig=0, MaxLive=3)
+    W["filter_age"] = base("filter", Cap=2, Filters={0, 1}, Tags={0}, Trig=1, MaxLive=3)
+    W["buffer_fifo"] = base("buffer", Cap=2, Delays={0, 1}, MaxLive=ml)
+    W["buffer_lifo"] = base("buffer", Cap=2, Mode="LIFO", Delays={0, 1}, MaxLive=ml)
+    W["fleet_d2t1"] = base("fleet", Cap=2, FDelay=2, Transit=1, MaxLive=3)
+    W["fleet_d1t0"] = base("fleet", Cap=2, FDelay=1, Transit=0, MaxLive=3)
+    if not q:
+        W["fleet_prio"] = base("fleet", Cap=2, FDelay=2, Transit=0, Prios={0, 1}, MaxLive=3)
+        W["buffer_fifo_c3"] = base("buffer", Cap=3, Delays={0, 2}, MaxLive=3)
+        W["filter_mixed"] = base("filter", Cap=2, Filters={0, 2}, Tags={0, 1}, Trig=1, MaxLive=3, Procs={0})
+    return W
+
+
+def store_cfg_of(c):
+    return dict(kind=c["Kind"], mode=c["Mode"], cap=c["Cap"], fdelay=c["FDelay"], transit=c["Transit"], trig=c["Trig"])
